@@ -563,3 +563,58 @@ Definition walk (fuel : nat) (bs : bytes) : walk_result :=
 
 (* data checksum printed instead of the bytes *)
 Definition cksum (d : bytes) : Z := fold_left (fun h b => (h * 31 + b) mod W32) d 7.
+
+(* ---------------------------------------------------------------- witness files, built with the encoders *)
+Definition wa : fattr := {| fa_old := false; fa_fmt := 76; fa_os := 66 |}.
+Definition pad32 (s : bytes) : bytes := s ++ repeat 32 (32 - length s).
+Definition what_B02 : bytes := [192; 168; 163; 169] ++ adf_magic ++ [32; 66; 48; 50; 48; 49; 50; 62].
+Definition blank_ptr : ptr := (0, 4096).
+Definition wit_header : bytes :=
+  enc_file_header wa {| fh_what := what_B02; fh_cdate := repeat 32 28; fh_mdate := repeat 32 28; fh_fmt := 76; fh_os := 66;
+                        fh_sizes := [1; 2; 4; 8; 4; 8; 8; 8; 8; 8; 8; 8];
+                        fh_root := (0, 266); fh_eof := (0, 4095); fh_free := (0, 186); fh_extra := blank_ptr |}
+  ++ enc_fct wa (repeat blank_ptr 6).
+Definition mk_node (name label dtype : bytes) (nsub entries : Z) (snt : ptr) (nd : Z) (d0 : Z) (nch : Z) (data : ptr) : bytes :=
+  enc_node_header wa {| nh_name := pad32 name; nh_label := pad32 label; nh_nsub := nsub; nh_entries := entries;
+                        nh_snt := snt; nh_dtype := pad32 dtype; nh_ndims := nd; nh_dims := d0 :: repeat 0 11;
+                        nh_nchunks := nch; nh_data := data |}.
+Definition nm_root := [65; 68; 70; 32; 77; 111; 116; 104; 101; 114; 78; 111; 100; 101].   (* "ADF MotherNode" *)
+Definition MT := [77; 84].
+Definition blank_entry : bytes * ptr := (repeat 32 32, blank_ptr).
+
+(* root with two children "A" and "B"; the table on disk has room for 8 entries; the root header claims
+   [entries] entries and [nsub] children; child A is located at [pa] *)
+Definition wit_two (nsub entries : Z) (pa : ptr) : bytes :=
+  wit_header
+  ++ mk_node nm_root [82] MT nsub entries (0, 512) 0 0 0 blank_ptr                       (* 266 *)
+  ++ enc_snt wa (0, 880) ((pad32 [65], pa) :: (pad32 [66], (0, 1130)) :: repeat blank_entry 6)   (* 512 .. 884 *)
+  ++ mk_node [65] [76; 65] MT 0 0 blank_ptr 0 0 0 blank_ptr                             (* 884 *)
+  ++ mk_node [66] [76; 66] MT 0 0 blank_ptr 0 0 0 blank_ptr.                            (* 1130 .. 1376 *)
+
+Definition wit_valid : bytes := wit_two 2 8 (0, 884).
+Definition wit_oobw : bytes := wit_two 2 2 (0, 884).       (* DESIGN section 6 #12: 00000008 -> 00000002 *)
+Definition wit_oobr : bytes := wit_two 2 0 (0, 884).       (* children claimed, zero-size table buffer *)
+Definition wit_cycle : bytes := wit_two 2 8 (0, 266).      (* child A is the root itself *)
+
+(* a link node L whose target path goes through L itself: ">/L/x" *)
+Definition wit_linkrec : bytes :=
+  wit_header
+  ++ mk_node nm_root [82] MT 1 8 (0, 512) 0 0 0 blank_ptr
+  ++ enc_snt wa (0, 880) ((pad32 [76], (0, 884)) :: repeat blank_entry 7)
+  ++ mk_node [76] [] [76; 75] 0 0 blank_ptr 1 5 1 (0, 1130)
+  ++ enc_data_chunk wa (0, 1151) [62; 47; 76; 47; 120].
+(* a link whose payload (6000 bytes) exceeds link_data[5122] *)
+Definition wit_biglink : bytes :=
+  wit_header
+  ++ mk_node nm_root [82] MT 1 8 (0, 512) 0 0 0 blank_ptr
+  ++ enc_snt wa (0, 880) ((pad32 [76], (0, 884)) :: repeat blank_entry 7)
+  ++ mk_node [76] [] [76; 75] 0 0 blank_ptr 1 6000 1 (0, 1130)
+  ++ enc_data_chunk wa (1, 3050) (62 :: 47 :: repeat 97 5998).
+(* the file header's format byte is NUL: assert(format != UNDEFINED_FORMAT) *)
+Definition wit_abort : bytes := firstn 100 wit_valid ++ [0] ++ skipn 101 wit_valid.
+(* a broken "TaiL" tag without any NUL after it: ADFI_stridx_c scans past disk_node_data[246] *)
+Definition wit_tagscan : bytes := firstn 508 wit_valid ++ [88] ++ skipn 509 wit_valid.
+(* truncated inside the root node header: ADFI_read_file serves rd_block_buffer bytes it never read *)
+Definition wit_stale : bytes := firstn 400 wit_valid.
+
+Definition walk_events (r : walk_result) : list ev := match r with WOk _ evs => evs | WOpenFail _ => [] end.
